@@ -30,7 +30,7 @@ DEPTH = []        # id -> term depth
 _LEAVES = {}      # id -> frozenset of leaf ids
 _SUBS = {}        # id -> frozenset of all sub ids (incl. self)
 
-D_MAX = 30
+D_MAX = 80
 
 
 def reset():
